@@ -14,10 +14,10 @@ import (
 
 func init() {
 	register("C09", core.Spec{
-		Decides: "two structural necessary conditions of C09. (1) A CPU-specific variant is selected only when the CPU has the feature: for every std function declared with a `choose cpu_arch >= X` pre-condition (oracle: std/*.wuffs through the front end), the generated C defines it only inside `#if defined(WUFFS_PRIVATE_IMPL__CPU_ARCH__<M>)`, takes its address only as the true arm of `wuffs_base__cpu_arch__have_<X>() ? &f :` inside the same #if with the same X, never calls it directly; the object built with WUFFS_CONFIG__AVOID_CPU_ARCH contains none of these functions; and the front end rejects direct calls and type-checks every `choose` alternative for signature compatibility. (2) Partial zero-initialisation (WUFFS_INITIALIZE__LEAVE_INTERNAL_BUFFERS_UNINITIALIZED) cannot leave a refined, pointer-bearing or non-numeric base-typed field uninitialised: the parser admits only unrefined numeric base types (through arrays) or sub-objects as 'second part' fields, every private_data field of std satisfies this, and (C08 rule G6) private_impl is always zeroed (V.clone) the CPU-specific alternatives the repository documents as copies of a portable function (frozen table: deflate decode_huffman_bmi2 ~ decode_huffman_fast64) have the same body token for token, so which one the CPU selects cannot change the result",
-		NotDecided: "that the SIMD and portable bodies compute the same function (value-level; the JPEG IDCT exception in the property text is exactly such a case), reads of never-written private_data buffers, equivalence of re-initialisation, and the cpuid logic of the hand-written have_* predicates",
+		Decides:     "two structural necessary conditions of C09. (1) A CPU-specific variant is selected only when the CPU has the feature: for every std function declared with a `choose cpu_arch >= X` pre-condition (oracle: std/*.wuffs through the front end), the generated C defines it only inside `#if defined(WUFFS_PRIVATE_IMPL__CPU_ARCH__<M>)`, takes its address only as the true arm of `wuffs_base__cpu_arch__have_<X>() ? &f :` inside the same #if with the same X, never calls it directly; the object built with WUFFS_CONFIG__AVOID_CPU_ARCH contains none of these functions; and the front end rejects direct calls and type-checks every `choose` alternative for signature compatibility. (2) Partial zero-initialisation (WUFFS_INITIALIZE__LEAVE_INTERNAL_BUFFERS_UNINITIALIZED) cannot leave a refined, pointer-bearing or non-numeric base-typed field uninitialised: the parser admits only unrefined numeric base types (through arrays) or sub-objects as 'second part' fields, every private_data field of std satisfies this, and (C08 rule G6) private_impl is always zeroed (V.clone) the CPU-specific alternatives the repository documents as copies of a portable function (frozen table: deflate decode_huffman_bmi2 ~ decode_huffman_fast64) have the same body token for token, so which one the CPU selects cannot change the result",
+		NotDecided:  "that the SIMD and portable bodies compute the same function (value-level; the JPEG IDCT exception in the property text is exactly such a case), reads of never-written private_data buffers, equivalence of re-initialisation, and the cpuid logic of the hand-written have_* predicates",
 		Assumptions: []string{"the C lexer keeps preprocessor directives as tokens in order; cgen is the only producer of `choose` lowering", "gcc/nm for the AVOID_CPU_ARCH object", "the Wuffs front end as reader of declarations"},
-		Exhaustive: true,
+		Exhaustive:  true,
 	}, runC09)
 }
 
